@@ -2679,6 +2679,39 @@ fn gen_c13(o: &mut Out, _r: &mut Rng, tier: &str) {
             }
         }
     }
+    // the same peer written as an RFC 6733 DiameterURI (`aaa://`, `aaas://`, with parameters): the library takes `host:port`;
+    // whatever it makes of another spelling, the configuration decides how the connection is protected - the spelling does not
+    for spell in 1..=5 {
+        for (ctls, stls) in [(1, 0), (0, 1), (1, 1), (0, 0)] {
+            for verify in [0, 1] {
+                if verify == 1 && ctls == 0 {
+                    continue;
+                }
+                id += 1;
+                let addr = ["ip", "host"][(spell + ctls) % 2];
+                o.case(&format!("cell ctls={} verify={} stls={} cert=good addr={} spell={}", ctls, verify, stls, addr, spell));
+                o.line(&format!("tls ctls={} verify={} stls={} cert=good addr={} id={} cmd=257 spell={}", ctls, verify, stls, addr, id, spell));
+            }
+        }
+    }
+    // the good certificate in other clothes (valid for thirty years: its end date is spelled as GeneralizedTime; an RSA key)
+    for cv in [1, 2] {
+        for verify in [0, 1] {
+            for addr in ["host", "ip"] {
+                id += 1;
+                o.case(&format!("cell ctls=1 verify={} stls=1 cert=good addr={} cv={}", verify, addr, cv));
+                o.line(&format!("tls ctls=1 verify={} stls=1 cert=good addr={} id={} cmd=272 cv={}", verify, addr, id, cv));
+            }
+        }
+    }
+    // one client object connecting twice; behind the address the server was restarted with another certificate
+    for verify in [0, 1] {
+        for (c1, c2) in [("good", "untrusted"), ("good", "wrongname"), ("untrusted", "good"), ("good", "good_rsa"), ("wrongname", "good"), ("good_far", "good")] {
+            id += 1;
+            o.case(&format!("reconnect verify={} c1={} c2={}", verify, c1, c2));
+            o.line(&format!("tlsre verify={} c1={} c2={} id={}", verify, c1, c2, id));
+        }
+    }
     // TLS on, and a peer that makes the handshake fail
     for verify in [0, 1] {
         for mode in ["close", "rst", "garbage"] {
